@@ -10,12 +10,12 @@ from common import coq_list
 NAMES = {'a': 1, 'b': 2, 'p': 3, 'u': 4, 'k': 5, 'sol': 6, 'sf': 7, 'sc': 8, 'a2': 1, 'p:s': 3}     # a2: a second, different object that is also named 'a'; p:s: a row of plate p
 REAL = {'a2': 'a'}
 STAGES = {'all': 0, 's1': 1, 's2': 2}
-RULE = ('complete enumeration: every call of the 36-call alphabet from every distinct lifecycle state reachable in <= N calls '
+RULE = ('complete enumeration: every call of the 38-call alphabet from every distinct lifecycle state reachable in <= N calls '
         '(N = 4 quick, 5 thorough), one representative path per state; non-trivial = every (state, call) pair; '
         'distinct by (state key, call)')
 
 ALPHABET = [
-    ('uses', ('a',)), ('uses', ('b',)), ('uses', ('p',)), ('uses', ('a', 'b')), ('uses', ('b', 'a', 'p')), ('uses', ('b', 'a', 'a2')), ('uses', ('a2',)),
+    ('uses', ('a',)), ('uses', ('b',)), ('uses', ('p',)), ('uses', ('a', 'b')), ('uses', ('b', 'a', 'p')), ('uses', ('b', 'a', 'a2')), ('uses', ('a2',)), ('uses_iter', ('a', 'b')), ('uses_list', ('u', 'p')),
     ('create_container', 'k'), ('create_container', 'a'),
     ('create_solution', 'sol', None), ('create_solution', 'sc', 'a'), ('create_solution', 'sc', 'u'),
     ('create_solution_from', 'a', 'sf'), ('create_solution_from', 'u', 'sf'),
@@ -54,6 +54,10 @@ class World:
         k = c[0]
         if k == 'uses':
             r.uses(*[self.obj(n) for n in c[1]])
+        elif k == 'uses_iter':       # the documented "iterable of containers and plates", as a one-shot iterator
+            r.uses(self.obj(n) for n in c[1])
+        elif k == 'uses_list':
+            r.uses([self.obj(n) for n in c[1]])
         elif k == 'create_container':
             self.created.setdefault(c[1] + '!', None)
             x = r.create_container(c[1], initial_contents=[(self.water, '5 mL'), (self.salt, '5 mmol')])
@@ -108,7 +112,7 @@ def apply(world, c):
 def coq_call(c):
     k = c[0]
     n = lambda x: str(NAMES[x])
-    if k == 'uses':
+    if k in ('uses', 'uses_iter', 'uses_list'):
         return "CUses " + coq_list([n(x) + '%nat' for x in c[1]])
     if k == 'create_container':
         return f"CCreateContainer {n(c[1])}"
@@ -165,7 +169,7 @@ def decode(ints, ncalls):
     return out
 
 
-DECLARING = {'uses', 'create_container', 'create_solution', 'create_solution_from'}
+DECLARING = {'uses', 'uses_iter', 'uses_list', 'create_container', 'create_solution', 'create_solution_from'}
 STEP_ADDING = {'transfer', 'remove', 'dilute', 'dilute_rename', 'fill_to', 'create_container', 'create_solution', 'create_solution_from'}
 
 
@@ -194,7 +198,7 @@ def oracle(path, c, out, before, after, baked_keys):
     new = {'create_container': c[1:2], 'create_solution': c[1:2], 'create_solution_from': c[2:3]}.get(k, ())
     if all(o in decl for o in operands) and any(x in decl for x in new) and out[0] == 'ok':
         fails.append(f"{c} creates a second object with an existing name but was accepted")
-    if k == 'uses':
+    if k in ('uses', 'uses_iter', 'uses_list'):
         nm = [REAL.get(x, x) for x in c[1]]
         if (len(set(nm)) < len(nm) or any(x in decl for x in nm)) and out[0] == 'ok':
             fails.append(f"{c} declares a name that exists already (or twice in one call: objects {c[1]} are named {nm}) but was accepted")
@@ -217,13 +221,13 @@ def oracle(path, c, out, before, after, baked_keys):
             fails.append(f"bake returned names {baked_keys}, declared {sorted(names[x] for x in after[3])}")
     if out[0] == 'ok' and k in STEP_ADDING and after[2] != nsteps + 1:
         fails.append(f"{c} accepted but the number of steps went from {nsteps} to {after[2]}")
-    if out[0] != 'ok' and k != 'uses' and k != 'bake' and after != before:
+    if out[0] != 'ok' and k not in ('uses', 'uses_iter', 'uses_list') and k != 'bake' and after != before:
         fails.append(f"rejected call {c} changed the recipe state")
     return fails
 
 
 def run(chk, gate, status):
-    depth = 3 if chk.tier == 'quick' else 4     # depth 5 with the 36-call alphabet is millions of (state, call) pairs
+    depth = 3 if chk.tier == 'quick' else 4     # depth 5 with the 38-call alphabet is millions of (state, call) pairs
     cases, nstates = explore(depth)
     # unused-object clause: needs the set of used names, which bake computes; checked through the model and directly below
     terms = ["showCalls init " + coq_list(["(" + coq_call(x) + ")" for x in path + (c,)]) for (path, c, out, st, bk) in cases]
